@@ -881,6 +881,11 @@ func (zl *zlexer) Next() (lex, bool) {
 					l.value = zDirGenerate
 				}
 
+				if l.value != zOwner {
+					// The arguments of a directive are never types or classes.
+					zl.rrtype = true
+				}
+
 				retL = *l
 			} else {
 				l.value = zString
